@@ -84,7 +84,7 @@ void t_bsearch(Ctx& c)
 {
     k_bsearch<KPtr>(c);
     k_bsearch<KFwd>(c);
-    k_bsearch<KRa>(c);
+    C06_FULL(k_bsearch<KRa>(c);)
 }
 
 // ---------------------------------------------------------------- includes / merge / set_union / set_intersection / set_difference / set_symmetric_difference
@@ -205,10 +205,12 @@ Test const kTests[] = {
     {"bsearch", t_bsearch},
     {"setops_ptr", t_setops_ptr},
     {"setops_in_out", t_setops_in_out},
+#if !C06_TRUTHY
     {"setops_mixed", t_setops_mixed},
+#endif
 };
 std::size_t const kNumTests = sizeof(kTests) / sizeof(kTests[0]);
 
 } // namespace c06
 
-C06_MAIN("C06_set")
+C06_MAIN(C06_TRUTHY ? "C06_set_truthy" : "C06_set")
